@@ -1,6 +1,7 @@
 package props
 
 import (
+	"bytes"
 	"context"
 	"github.com/glebziz/fs_db"
 	"io"
@@ -642,4 +643,134 @@ func (p *pieceSrc) Read(b []byte) (int, error) {
 	copy(b, p.data[p.off:p.off+n])
 	p.off += n
 	return n, nil
+}
+
+func init() {
+	p := Registry["C13"]
+	p.Roles["restartids"] = Role{N: func(t string) int { return tierN(t, 4, 32) }, Case: c13RestartIds}
+	p.Rule += " Role restartids: the identifiers of 30-60 transactions that ended are noted (from the hook events at their end), the database is reopened (inline client; server application restarted), 40-80 new transactions are begun and stay open; then every old identifier is used again through a handle built for it: reads and Commit must fail with ErrTxNotFound, Rollback must be a no-op - and none of the new transactions may be harmed by it (each still reads, writes and commits)."
+}
+
+// c13RestartIds: identifiers of finished transactions stay dead across a restart.
+func c13RestartIds(tier string, seed int64, idx int, scratch string) rt.CaseResult {
+	var c rt.CaseResult
+	mode := dbx.Inline
+	if idx%2 == 1 {
+		mode = dbx.Grpc
+	}
+	env, err := dbx.Open(dbx.Options{Mode: mode, Dir: filepath.Join(scratch, "db")})
+	if err != nil {
+		c.Violate("open-failed", err.Error(), nil)
+		return c
+	}
+	defer func() { env.Close() }()
+	rng := seqrun.Rng(seed, "C13r", idx)
+	var mu sync.Mutex
+	var ended []string
+	verif.SetHandler(func(point, id string) {
+		if point == "tx.commit.unregistered" || point == "tx.rollback.unregistered" {
+			mu.Lock()
+			ended = append(ended, id)
+			mu.Unlock()
+		}
+	})
+	env.DB.Set(ctxBg, "k", []byte("v0"))
+	n1 := 30 + rng.Intn(31)
+	for i := 0; i < n1; i++ {
+		tx, err := env.DB.Begin(ctxBg, verif.IsoLevel(rng.Intn(4)))
+		if err != nil {
+			verif.SetHandler(nil)
+			c.Violate("begin-failed", err.Error(), nil)
+			return c
+		}
+		if rng.Intn(2) == 0 {
+			tx.Set(ctxBg, fmt.Sprintf("old%d", i), []byte("x"))
+		}
+		if rng.Intn(2) == 0 {
+			err = tx.Commit(ctxBg)
+		} else {
+			err = tx.Rollback(ctxBg)
+		}
+		if err != nil {
+			verif.SetHandler(nil)
+			c.Violate("end-failed", err.Error(), nil)
+			return c
+		}
+	}
+	verif.SetHandler(nil)
+	mu.Lock()
+	old := append([]string(nil), ended...)
+	mu.Unlock()
+	if len(old) < n1 {
+		c.Inconclusive = append(c.Inconclusive, fmt.Sprintf("only %d of %d ends were observed at the hook points", len(old), n1))
+		return c
+	}
+	if err := env.Reopen(); err != nil {
+		c.Violate("reopen-failed role=restartids", err.Error(), nil)
+		return c
+	}
+	n2 := 40 + rng.Intn(41)
+	fresh := make([]fs_db.Tx, n2)
+	for i := range fresh {
+		tx, err := env.DB.Begin(ctxBg, verif.IsoLevel(rng.Intn(4)))
+		if err != nil {
+			c.Violate("begin-failed after-restart", err.Error(), nil)
+			return c
+		}
+		fresh[i] = tx
+	}
+	rp := map[string]any{"seed": seed, "case": idx, "mode": modeName(mode), "ended_before_the_restart": len(old), "open_after_it": n2}
+	for i, id := range old {
+		h := verif.TxHandle(env.DB, id)
+		_, e1 := h.Get(ctxBg, "k")
+		_, e2 := h.GetKeys(ctxBg)
+		e3 := h.Set(ctxBg, "k", []byte("from a dead handle"))
+		c.Evals += 4
+		for j, e := range []error{e1, e2, e3} {
+			if cls := seqrun.Class(e); cls != refmodel.TxNotFound {
+				op := []string{"get", "getkeys", "set"}[j]
+				rp["identifier"] = id
+				c.Violate(fmt.Sprintf("late-op-accepted after-restart op=%s got=%s", op, cls), fmt.Sprintf("the transaction %s ended before the restart; after it (and after %d new Begins) %s through a handle naming it gave %s instead of ErrTxNotFound", id, n2, op, cls), rp)
+				return c
+			}
+		}
+		var e4 error
+		if i%2 == 0 {
+			e4 = h.Commit(ctxBg)
+			if seqrun.Class(e4) != refmodel.TxNotFound {
+				rp["identifier"] = id
+				c.Violate("late-op-accepted after-restart op=commit got="+string(seqrun.Class(e4)), fmt.Sprintf("Commit through the identifier %s of a transaction that ended before the restart returned %v", id, e4), rp)
+				return c
+			}
+		} else if e4 = h.Rollback(ctxBg); e4 != nil {
+			c.Violate("late-rollback-not-a-no-op after-restart", fmt.Sprint(e4), rp)
+			return c
+		}
+	}
+	// the transactions begun after the restart are all still alive and independent
+	for i, tx := range fresh {
+		v := []byte(fmt.Sprintf("fresh-%d-%d", idx, i))
+		k := fmt.Sprintf("new%d", i)
+		if err := tx.Set(ctxBg, k, v); err != nil {
+			c.Violate("live-transaction-harmed-by-dead-handle op=set class="+string(seqrun.Class(err)), fmt.Sprintf("transaction %d of %d begun after the restart: Set failed after the old identifiers had been used: %v", i, n2, err), rp)
+			return c
+		}
+		if b, gerr := tx.Get(ctxBg, k); gerr != nil || !bytes.Equal(b, v) {
+			c.Violate("live-transaction-harmed-by-dead-handle op=get", fmt.Sprintf("transaction %d begun after the restart reads %q (%v) for its own write", i, b, gerr), rp)
+			return c
+		}
+		if err := tx.Commit(ctxBg); err != nil {
+			c.Violate("live-transaction-harmed-by-dead-handle op=commit class="+string(seqrun.Class(err)), fmt.Sprintf("transaction %d begun after the restart: Commit failed: %v", i, err), rp)
+			return c
+		}
+	}
+	if b, gerr := env.DB.Get(ctxBg, "k"); gerr != nil || string(b) != "v0" {
+		c.Violate("late-write-visible after-restart", fmt.Sprintf("k reads %q (%v)", b, gerr), rp)
+		return c
+	}
+	c.AddDistinct(fmt.Sprintf("restartids/%s", modeName(mode)))
+	if idx == 0 {
+		c.Sample = map[string]any{"ended_before_restart": len(old), "open_after_restart": n2, "mode": modeName(mode)}
+	}
+	return c
 }
